@@ -454,10 +454,20 @@ func ValidationMatrix() *m.Design {
 	step := &m.UserType{Name: "VStep", Var: "vvstep", Attr: obj(fld("name", m.Prim(m.String), true), fld("level", level, true))}
 	methods = append(methods, &m.Method{Name: "reqdef", Payload: obj(fld("mode", mode, true), fld("steps", arrOf(m.UserRef("VStep")), false), fld("note", m.Prim(m.String), false)),
 		HTTP: &m.HTTPEndpoint{Routes: []m.Route{{Verb: "POST", Path: "/v/reqdef"}}}})
+	// one validated alias type used several times in one body (attribute, second
+	// attribute, array element, map element) and in the result
+	slug := &m.UserType{Name: "Slug", Var: "vslug", Attr: &m.Attr{Type: &m.Type{Kind: m.String}, V: &m.Validation{Pattern: Patterns[0].Pattern, MaxLen: ip(12)}}}
+	pct := &m.UserType{Name: "Percent", Var: "vpercent", Attr: &m.Attr{Type: &m.Type{Kind: m.Int}, V: &m.Validation{Min: fp(0), Max: fp(100)}}}
+	methods = append(methods, &m.Method{Name: "twice",
+		Payload: obj(fld("slug", m.UserRef("Slug"), true), fld("parent", m.UserRef("Slug"), false), fld("tags", arrOf(m.UserRef("Slug")), false),
+			fld("discount", m.UserRef("Percent"), false), fld("member_discount", m.UserRef("Percent"), false),
+			fld("by_name", &m.Attr{Type: &m.Type{Kind: m.Map, Key: m.Prim(m.String), Val: m.UserRef("Percent")}}, false)),
+		Result: obj(fld("slug", m.UserRef("Slug"), false), fld("alias", m.UserRef("Slug"), false)),
+		HTTP:   &m.HTTPEndpoint{Routes: []m.Route{{Verb: "POST", Path: "/v/twice"}}}})
 	return &m.Design{API: m.API{Name: "validations", Title: "Validation matrix"},
-		Types:    []*m.UserType{quantity, code, bag, step},
+		Types:    []*m.UserType{quantity, code, bag, step, slug, pct},
 		Services: []*m.Service{{Name: "validations", HasHTTP: true, Methods: methods}},
-		Features: []string{"fixed-design:validation-matrix", "pattern", "format", "same-attribute-name-different-constraints", "validation-in-mapping", "validation-in-mapping-on-alias"}}
+		Features: []string{"fixed-design:validation-matrix", "pattern", "format", "same-attribute-name-different-constraints", "validation-in-mapping", "validation-in-mapping-on-alias", "validated-alias-used-twice-in-one-body"}}
 }
 
 // VerbMatrix is a fixed design with one endpoint per HTTP verb (HEAD included:
@@ -787,4 +797,29 @@ func RecursiveMatrix() *m.Design {
 		Types:    []*m.UserType{node, tree, a, b},
 		Services: []*m.Service{{Name: "recmatrix", HasHTTP: true, Methods: []*m.Method{put, mutual, get}}},
 		Features: []string{"fixed-design:recursive-matrix", "recursive-through-array", "recursive-through-map-element", "mutually-recursive-types", "recursive-result-type"}}
+}
+
+// WildcardMatrix is a fixed design about trailing wildcards: the same
+// catch-all location mounted for several verbs under different wildcard
+// names (the router only knows such a segment as "*", the name is kept in a
+// table of the muxer), next to a wildcard after a parameter and one under
+// another prefix.
+func WildcardMatrix() *m.Design {
+	obj := func(fs ...*m.Field) *m.Attr { return &m.Attr{Type: &m.Type{Kind: m.Object, Fields: fs}} }
+	fld := func(n string, a *m.Attr, req bool) *m.Field { return &m.Field{Name: n, Attr: a, Required: req} }
+	str := func() *m.Attr { return m.Prim(m.String) }
+	ok := func() *m.Attr { return obj(fld("ok", m.Prim(m.Boolean), true)) }
+	fetch := &m.Method{Name: "fetch", Payload: obj(fld("path", str(), true), fld("rev", str(), false)), Result: ok(),
+		HTTP: &m.HTTPEndpoint{Routes: []m.Route{{Verb: "GET", Path: "/files/{*path}"}}, Path: []m.Mapping{{Attr: "path"}}, Query: []m.Mapping{{Attr: "rev"}}}}
+	store := &m.Method{Name: "store", Payload: obj(fld("name", str(), true), fld("content", str(), false)), Result: ok(),
+		HTTP: &m.HTTPEndpoint{Routes: []m.Route{{Verb: "PUT", Path: "/files/{*name}"}}, Path: []m.Mapping{{Attr: "name"}}}}
+	remove := &m.Method{Name: "remove", Payload: obj(fld("target", str(), true)), Result: ok(),
+		HTTP: &m.HTTPEndpoint{Routes: []m.Route{{Verb: "DELETE", Path: "/files/{*target}"}}, Path: []m.Mapping{{Attr: "target"}}}}
+	scoped := &m.Method{Name: "scoped", Payload: obj(fld("owner", str(), true), fld("rest", str(), true)), Result: ok(),
+		HTTP: &m.HTTPEndpoint{Routes: []m.Route{{Verb: "GET", Path: "/owners/{owner}/{*rest}"}}, Path: []m.Mapping{{Attr: "owner"}, {Attr: "rest"}}}}
+	other := &m.Method{Name: "other", Payload: obj(fld("path", str(), true)), Result: ok(),
+		HTTP: &m.HTTPEndpoint{Routes: []m.Route{{Verb: "GET", Path: "/blobs/{*path}"}}, Path: []m.Mapping{{Attr: "path"}}}}
+	return &m.Design{API: m.API{Name: "wildcards", Title: "Wildcard matrix"},
+		Services: []*m.Service{{Name: "wildcards", HasHTTP: true, Methods: []*m.Method{fetch, store, remove, scoped, other}}},
+		Features: []string{"fixed-design:wildcard-matrix", "wildcard-route", "same-wildcard-location-several-verbs"}}
 }
